@@ -130,6 +130,21 @@ def gen_cover_nest(cases):
                 cases.append((tok_case(toks), "cover-nest3"))
 
 
+def gen_cover_case(cases):
+    """end tags that match an open element only up to ASCII case - in the local name or in the prefix: XML names are
+    case-sensitive, such a tag closes nothing (and must not pop anything)"""
+    for d in DECLS[:6]:
+        for p in PREFIXES:
+            for l1, l2 in (("doc", "item"), ("a", "b"), ("A", "a"), ("script", "Script")):
+                t1, t2 = ("S", name(p, l1), list(d)), ("S", name(p, l2), [])
+                for wrong in (name(p, l2.upper()), name(p, l2.capitalize()), name(p, l2.swapcase()),
+                              name(p.upper() if p else None, l2), name(p, l1.upper()), name(p, l1.swapcase())):
+                    for tail in ([("E", t2[1], []), PROBE2, ("E", t1[1], []), ("C", "after")], [("T", "x")], []):
+                        toks = [t1, t2, ("T", "text"), ("E", wrong, []), PROBE] + tail
+                        cases.append((src_case(toks), "cover-case"))
+                        cases.append((tok_case(toks), "cover-case"))
+
+
 KINDS = ["S", "M", "E", "H", "Ss", "Ms", "Es", "Ed"]
 
 
@@ -267,6 +282,7 @@ def gen_cases(tier, rng):
     gen_cover_attrs(cases)
     gen_cover_kinds(cases)
     gen_cover_nest(cases)
+    gen_cover_case(cases)
     gen_random(cases, rng, 4000 if tier == "quick" else 400000)
     return cases
 
